@@ -422,13 +422,17 @@ def g_apply_permutation(draw, avoid):
     dt, n = _dt(draw), draw(st.integers(1, 5))
     target = draw(st.sampled_from(BATCHES))
     mb = gen.sub_batch(draw, target)
-    case = {"mat": _vals(draw, dt, tuple(mb) + (n, n), "few"), "kind": draw(st.sampled_from(["tensor", "tensor", "tensor", "op"]))}
+    # rectangular matrices: the docstring writes `... x n x n`, but the routine indexes rows and columns separately and the
+    # library itself un-pivots n x rank factors with it (pivoted Cholesky backward); the dense definition is the same
+    m = n if draw(st.integers(0, 3)) else draw(st.integers(1, 5))
+    case = {"mat": _vals(draw, dt, tuple(mb) + (m, n), "few"), "kind": draw(st.sampled_from(["tensor", "tensor", "tensor", "op"]))}
     sides = draw(st.sampled_from(["both", "both", "both", "left", "left", "right", "right", "none"]))
     for side in ("left", "right"):
         if sides in ("both", side):
-            k = n if draw(st.booleans()) else draw(st.integers(1, n))
+            sz = m if side == "left" else n
+            k = sz if draw(st.booleans()) else draw(st.integers(1, sz))
             pb = gen.sub_batch(draw, target) if draw(st.integers(0, 3)) else ()
-            case[side] = _perm(draw, pb, n, k)
+            case[side] = _perm(draw, pb, sz, k)
     return case
 
 
@@ -974,14 +978,15 @@ def r_apply_permutation(case):
     fn, dt = case["fn"], _dtof(case, "mat")
     K, K64 = L.materialise(case["mat"]), L.value(case["mat"], F64)
     n = K.shape[-1]
+    m_rows = K.shape[-2]
     left = L.materialise(case["left"]) if "left" in case else None
     right = L.materialise(case["right"]) if "right" in case else None
-    cell = "matrix:" + case["kind"]
+    cell = "matrix:" + case["kind"] + ("" if m_rows == n else ":rect")
 
     def dense_def():
         out = K64
         if left is not None:
-            out = torch.matmul(_onehot(left, n), out)
+            out = torch.matmul(_onehot(left, m_rows), out)
         if right is not None:
             out = torch.matmul(out, _onehot(right, n).transpose(-1, -2))
         return out
@@ -991,7 +996,7 @@ def r_apply_permutation(case):
     res = _lib(fn, cell, lambda: apply_permutation(arg, left, right))
     _cmp(fn, cell, res, ref, None, dt, 1)
     mb = tuple(K.shape[:-2])
-    partial = any(p is not None and p.shape[-1] < n for p in (left, right))
+    partial = (left is not None and left.shape[-1] < m_rows) or (right is not None and right.shape[-1] < n)
     pb = [tuple(p.shape[:-1]) for p in (left, right) if p is not None]
     bc = any(b != mb for b in pb)
     labels = [cell, "mbatch:%d" % len(mb), "sides:%s%s" % ("L" if left is not None else "-", "R" if right is not None else "-")]
